@@ -16,11 +16,41 @@ import regen_c19
 
 PID = "C19"
 sys.set_int_max_str_digits(0)
-THEOREMS = ["expr_sem_except_known", "size_suffix_refuted", "bool_sem_except_known", "defined_refuted",
-            "logical_value_refuted", "division_is_c_division_on_naturals", "prec_table_documented",
+# theorems about tables / model that hold whether or not the listed findings are repaired
+THEOREMS = ["expr_sem_except_known", "bool_sem_except_known", "division_is_c_division_on_naturals", "prec_table_documented",
             "every_operator_production_has_a_row", "print_parse", "consts_resolve", "stmt_sem_except_known",
-            "stmt_never_mistranslated", "blob_load_refuted", "reset_call_refuted", "unsupported_refused_except_known",
-            "section_options_refuted", "exactly_one_command"]
+            "stmt_never_mistranslated", "unsupported_refused_except_known", "section_options_refuted", "exactly_one_command",
+            "blob_load_refuted"]
+# findings whose state is visible in the extracted tables: (refutation theorem + its proof file) while the defect is in the
+# source, (full theorem from tools/props/c19_alt/, compiled in coq/Cases) once the tables show the repair
+TABLE_FINDINGS = {
+    "C19-F1": ("size_suffix_refuted", "Proofs/BdF1Proofs.vo", "expr_sem_full"),
+    "C19-F2": ("defined_refuted", "Proofs/BdF2Proofs.vo", "defined_full"),
+    "C19-F3": ("logical_value_refuted", "Proofs/BdF3Proofs.vo", "logical_value_full"),
+    "C19-F5": ("reset_call_refuted", "Proofs/BdF5Proofs.vo", "reset_call_full"),
+}
+
+
+def repaired_findings(t):
+    """Which table-visible findings are repaired in the source the tables were extracted from."""
+    lv = {}
+    for i, (_, toks) in enumerate(t["prec"]):
+        for tok in toks:
+            lv[tok] = i + 1
+    rep = set()
+    if dict(t["sizes"]) == {"w": 0xFFFFFFFF, "h": 0xFFFF, "b": 0xFF} and lv.get("PERIOD", 0) > max(lv.get(x, 0) for x in ("TIMES", "DIVIDE", "MOD")):
+        rep.add("C19-F1")
+    if t["defined_by_name"]:
+        rep.add("C19-F2")
+    rows = {r[0]: r[1] for r in t["bool_rows"]}
+    if rows.get("&&") == "AndBool" and rows.get("||") == "OrBool":
+        rep.add("C19-F3")
+    cmds = dict(t["cmds"])
+    if cmds.get("reset") == "_reset" and cmds.get("call") == "_call":
+        rep.add("C19-F5")
+    return rep
+
+
 WORK = os.path.join(vlib.WORK, PID)
 
 # ======================================================================================================
@@ -1422,7 +1452,7 @@ def oracle_program(p, sp, ir):
     for n, (v, f) in sp["options"].items():
         want = ("s", v) if isinstance(v, str) else ("i", v)
         if got_opts.get(n) != want:
-            hits.append(("option", f, f"option {name_of(n)}: specified {want[1]!r}, configuration has {got_opts.get(n, (None, None))[1]!r}"))
+            hits.append(("option", f, f"option {name_of(n)}: specified {want[1]!r}, configuration has {got_opts.get(n, (None, None))[1]!r}", ("option", n)))
     extra = set(got_opts) - set(sp["options"])
     if extra:
         hits.append(("option", set(), f"configuration has options nobody defined: {sorted(map(str, extra))}"))
@@ -1437,13 +1467,13 @@ def oracle_program(p, sp, ir):
             want = {k: (("s", v) if isinstance(v, str) else ("i", v)) for k, v in content.items()}
             got = {k: tuple(v) for k, v in gcontent[0]} if (isinstance(gcontent, list) and len(gcontent) == 1 and gcontent[0][:1] != ["x"]) else None
             if tuple(gid) != ("i", kid) or got != want:
-                hits.append(("keyblob", f, f"key blob {kid}: configuration has id {gid} content {got}, specified {want}"))
+                hits.append(("keyblob", f, f"key blob {kid}: configuration has id {gid} content {got}, specified {want}", ("keyblob", len([h for h in hits if h[0] == "keyblob"]))))
     if len(parse["sections"]) != len(sp["sections"]):
         hits.append(("section", set(), "number of sections"))
         return hits, allf
     for gs, (sid, f, _) in zip(parse["sections"], sp["sections"]):
         if tuple(gs["id"]) != ("i", sid):
-            hits.append(("section", f, f"section id {gs['id']} specified {sid}"))
+            hits.append(("section", f, f"section id {gs['id']} specified {sid}", ("section", parse["sections"].index(gs))))
         if gs["options_nonempty"]:
             hits.append(("section", set(), "section options appeared"))
     # commands
@@ -1474,8 +1504,32 @@ def oracle_program(p, sp, ir):
             if not cmd_agrees(c, gc, faithful=False):
                 hits.append(("command", f, f"section {si} statement {ci} {p['sections'][si][1][ci][0]}: specified "
                                            f"{c[:5]} payload {describe_payload(c[5])} mem {c[6]}, SPSDK built {gc[:5]} payload "
-                                           f"{(gc[5] or '')[:40]} mem {gc[6]}"))
+                                           f"{(gc[5] or '')[:40]} mem {gc[6]}", ("command", si, ci)))
     return hits, allf
+
+
+def item_agrees_with_model(loc, ir, mv):
+    """Is SPSDK's value of this one item exactly what the faithful model (defect included) computes?"""
+    try:
+        mparse, mload = mv[1]
+        if mparse[0] == "e" or isinstance(ir["parse"], list):
+            return False
+        a, b = norm_impl_config(ir["parse"]), norm_model_config(mparse)
+        if loc[0] == "option":
+            return dict(a[0] or ()).get(loc[1], "?") == dict(b[0] or ()).get(loc[1], "??")
+        if loc[0] == "keyblob":
+            return a[2] is not None and b[2] is not None and a[2] == b[2]
+        if loc[0] == "section":
+            return a[3][loc[1]][0] == b[3][loc[1]][0]
+        if loc[0] == "command":
+            mc = model_cmds(mload)
+            load = ir["load"]
+            if isinstance(mc, tuple) or (isinstance(load, list) and load[:1] == ["e"]):
+                return False
+            return cmd_agrees(mc[loc[1]][loc[2]], load[loc[1]][1][loc[2]], faithful=True)
+    except (IndexError, KeyError, TypeError, ValueError):
+        return False
+    return False
 
 
 def describe_payload(pl):
@@ -1595,6 +1649,7 @@ def correspondence(rep, rng, tier, streams, exprs, model_ok, mout, g):
         rep.obligation("correspondence:model builds", False, mout[-1500:])
 
     ndis, nunmod, nrepaired = 0, 0, 0
+    repaired_classes = {}
     per_stream = {}
     for idx, (c, ir) in enumerate(zip(cases, results)):
         st = per_stream.setdefault(c["stream"], dict(n=0, accepted=0, distinct=set(), samples=[], oracle_checked=0, cmds=0))
@@ -1615,13 +1670,16 @@ def correspondence(rep, rng, tier, streams, exprs, model_ok, mout, g):
             two_strings = lines_with_two_strings(c["text"])
             if mv is not None:
                 dis = compare_model(ir, mv)
-            for item, feats, msg in hits:
+            for hit in hits:
+                item, feats, msg = hit[0], hit[1], hit[2]
+                loc = hit[3] if len(hit) > 3 else None
                 feats = set(feats) | ({"strings-on-one-line"} if two_strings else set())
+                faithful = mv is not None and (dis is None or (loc is not None and item_agrees_with_model(loc, ir, mv)))
                 if not feats:
                     sig = f"bd:unexpected:{item}"
                 elif feats == {"strings-on-one-line"}:
                     sig = "bd:strings-on-one-line"
-                elif mv is not None and dis is None and "strings-on-one-line" not in feats:
+                elif faithful and "strings-on-one-line" not in feats:
                     sig = "bd:" + "+".join(sorted(feats))          # SPSDK behaves exactly as the faithful model of the listed defect
                 else:
                     sig = f"bd:unexpected-with:{'+'.join(sorted(feats))}:{item}"
@@ -1635,7 +1693,7 @@ def correspondence(rep, rng, tier, streams, exprs, model_ok, mout, g):
                     dis = None           # lexer-level class (C19-F6): the AST-level model does not see the text
                 elif allf and not hits:
                     nrepaired += 1       # known class, SPSDK now meets the specification: an upstream repair, not a violation
-                    vlib.log(f"  note: case of class {sorted(allf)} now meets the specification although the faithful model differs")
+                    repaired_classes[tuple(sorted(allf))] = repaired_classes.get(tuple(sorted(allf)), 0) + 1
                     dis = None
         elif c["kind"] == "tokens":
             parse = ir["parse"]
@@ -1671,6 +1729,9 @@ def correspondence(rep, rng, tier, streams, exprs, model_ok, mout, g):
                 with open(os.path.join(vlib.VERIF, "replays", f"{PID}-first-disagreement.json"), "w") as f:
                     json.dump({"property": PID, "kind": "model-vs-implementation", "what": dis, "bd_text": c["text"], "extern": c["extern"],
                                "spsdk_parse": ir["parse"], "spsdk_load": ir["load"]}, f, indent=1, default=str)
+    for cls, n in sorted(repaired_classes.items()):
+        vlib.log(f"  note: {n} programs of the known finding class {list(cls)} meet the specification although the (old) faithful model "
+                 "differs: the defect looks repaired upstream; the model / *_refuted theorem of that class should be flipped")
     if model_vals is not None:
         rep.obligation("correspondence:model=implementation on every generated program (configuration, commands, error class)",
                        ndis == 0, f"{ndis} disagreements (first one in replays/{PID}-first-disagreement.json)" if ndis else "")
@@ -1693,19 +1754,53 @@ def correspondence(rep, rng, tier, streams, exprs, model_ok, mout, g):
         extra_cov={"unmodelled_cases": nunmod, "known_class_cases_meeting_spec": nrepaired})
 
 
+def check_alt_theorem(rep, name, deps_ok):
+    """Compile tools/props/c19_alt/<name>.v (statement + proof of the repaired world) in coq/Cases."""
+    src = os.path.join(os.path.dirname(os.path.abspath(__file__)), "c19_alt", name + ".v")
+    if not deps_ok:
+        rep.obligation(f"theorem:{name}", False, "dependencies did not build")
+        return
+    dst_dir = os.path.join(vlib.COQ, "Cases")
+    os.makedirs(dst_dir, exist_ok=True)
+    base = f"c19alt_{name}"
+    shutil.copy(src, os.path.join(dst_dir, base + ".v"))
+    ok, out = vlib.coqc(f"Cases/{base}.v", timeout=600)
+    detail = out
+    if ok:
+        ass = vlib.parse_assumptions(out)
+        if not ass or not all(c for c, _ in ass):
+            ok, detail = False, "not closed under the global context: " + out[-500:]
+    for ext in (".v", ".vo", ".vok", ".vos", ".glob"):
+        try:
+            os.remove(os.path.join(dst_dir, base + ext))
+        except FileNotFoundError:
+            pass
+    rep.obligation(f"theorem:{name}", ok, detail)
+
+
+def _clean_work():
+    """scratch data lives under .work/C19 only; proposed_fix_*.diff (deliverables for the lead) are kept"""
+    if not os.path.isdir(WORK):
+        return
+    for f in os.listdir(WORK):
+        if f.startswith("proposed_fix"):
+            continue
+        pth = os.path.join(WORK, f)
+        if os.path.isdir(pth):
+            shutil.rmtree(pth, ignore_errors=True)
+        else:
+            os.remove(pth)
+
+
 def run(tier):
     rep = vlib.Report(PID, tier)
     rng = vlib.Rng(vlib.seed())
-    shutil.rmtree(WORK, ignore_errors=True)
     os.makedirs(WORK, exist_ok=True)
+    _clean_work()
     try:
         return _run(rep, rng, tier)
     finally:
-        keep = [f for f in os.listdir(WORK) if f.startswith("proposed_fix")] if os.path.isdir(WORK) else []
-        for f in os.listdir(WORK) if os.path.isdir(WORK) else []:
-            if f not in keep:
-                pth = os.path.join(WORK, f)
-                shutil.rmtree(pth, ignore_errors=True) if os.path.isdir(pth) else os.remove(pth)
+        _clean_work()
 
 
 def _run(rep, rng, tier):
@@ -1719,7 +1814,18 @@ def _run(rep, rng, tier):
         rep.obligation("translate:sly_bd_parser.py+sly_bd_lexer.py+sb_21_helper.py->Gen/GenBd.v", False, repr(ex))
     # (P) proofs
     model_ok, mout = vlib.coq_make(["Model/BdModel.vo"])
-    vlib.check_theorems(rep, PID, THEOREMS, ["Proofs/BdProofs.vo"])
+    repaired = repaired_findings(tables) if tables else set()
+    theorems, deps, alts = list(THEOREMS), ["Proofs/BdProofs.vo", "Proofs/BdF4Proofs.vo"], []
+    for fid, (refuted, proof_vo, full) in sorted(TABLE_FINDINGS.items()):
+        if fid in repaired:
+            alts.append((fid, full))
+        else:
+            theorems.append(refuted)
+            deps.append(proof_vo)
+    built = vlib.check_theorems(rep, PID, theorems, deps)
+    for fid, full in alts:
+        vlib.log(f"  note: the tables extracted from the source show {fid} repaired: proving {full} instead of its refutation")
+        check_alt_theorem(rep, full, built or model_ok)
     vlib.audit(rep)
     # (T2) cases
     streams, g = build_streams(tier, rng)
